@@ -5,6 +5,8 @@
            Mem/ListsBlock.v (blocking pops), Mem/ListsRefine.v (dispatcher, programs). *)
 Require Import Base.Bytes Base.GoInt Base.Reply Mem.Types Mem.Inv Mem.Lists Mem.Exec.
 Require Import Mem.ListsSpec Mem.ListsProofs Mem.ListsBlock Mem.ListsRefine.
+Require Import Mem.Server Mem.ListsBg Mem.ListsBgProofs Mem.ListsMulti Mem.ListsMultiProofs.
+Require Import Permutation.
 Local Open Scope Z_scope.
 
 (* ---------------------------------------------------------------- one command *)
@@ -156,6 +158,93 @@ Theorem C09_two_poppers : forall left1 left2 d keys1 keys2 k1 x1 d1 k2 x2 d2,
 Proof. exact two_poppers. Qed.
 Print Assumptions C09_two_poppers.
 
+(* The replay model used by the tie for steps during which other connections may act
+   ([srv_exec_bg], Mem/ListsBg.v) is the plain dispatcher step when nobody else acts: exactly for
+   every command that is not a well-formed blocking pop; for BLPOP/BRPOP (watchdog not involved)
+   the same reply, the return instant of [bpop_run], and a server that looks the same at every
+   later clock (the dispatcher has additionally dropped keys already expired at [now]). *)
+Theorem C09_bg_no_events_is_plain_nonblocking : forall s conn now nowms args hint wd,
+  blocking_form args = None ->
+  srv_exec_bg s conn now nowms args hint [] wd =
+  (fst (srv_exec s conn now nowms args hint), [], snd (srv_exec s conn now nowms args hint), nowms).
+Proof. exact bg_no_events_plain_nonblocking. Qed.
+Print Assumptions C09_bg_no_events_is_plain_nonblocking.
+
+Theorem C09_bg_no_events_is_plain : forall s conn now nowms args hint wd lft keys t d,
+  blocking_form args = Some (lft, keys, t) ->
+  block_timer_ms t <= wd ->
+  now = nowms / 1000 ->
+  nth_error (sdbs s) (sel_lookup conn (ssel s)) = Some d -> db_wf d ->
+  let '(r, outs, s_bg, tend) := srv_exec_bg s conn now nowms args hint [] wd in
+  let '(r', s_pl) := srv_exec s conn now nowms args hint in
+  r = r' /\ outs = [] /\ srv_equiv now s_bg s_pl /\
+  tend = snd (bpop_run lft (purge d now) nowms args).
+Proof. exact bg_no_events_plain_blocking. Qed.
+Print Assumptions C09_bg_no_events_is_plain.
+
+(* ---------------------------------------------------------------- several blocked poppers at once
+   (Mem/ListsMulti.v: every popper has its own 100 ms ticker started at its own call, other
+   connections push at arbitrary instants; [mrun] runs ANY sequence of atomic events, so every
+   phase offset and every tie order is covered; [msim] is the scheduler the tie replays) *)
+
+(* For any order of events, from a keyspace without deadlines, when the other connections only push
+   or start blocking pops: per key, what was there plus what was pushed (acknowledged) is a
+   permutation of what the poppers were handed plus what is still there. *)
+Theorem C09_blocked_poppers_conservation : forall wd d0 evs,
+  ttl d0 = [] -> Forall ok_ev evs ->
+  let st := mrun wd evs (mkM d0 [] [] []) in
+  forall k, Permutation (elems d0 k ++ vals_of k (m_pushed st)) (rets_of k (m_ps st) ++ elems (m_d st) k).
+Proof. exact multi_conservation. Qed.
+Print Assumptions C09_blocked_poppers_conservation.
+
+(* Two different blocked poppers that were both handed value x from key k: x was there or was
+   pushed at least twice.  So an element pushed once is returned to at most one popper. *)
+Theorem C09_two_blocked_poppers_each_element_once : forall wd d0 evs i j pi pj ti tj k x,
+  ttl d0 = [] -> Forall ok_ev evs ->
+  let st := mrun wd evs (mkM d0 [] [] []) in
+  i <> j ->
+  nth_error (m_ps st) i = Some (pi, PDone (RArr [RBulk k; RBulk x]) ti) ->
+  nth_error (m_ps st) j = Some (pj, PDone (RArr [RBulk k; RBulk x]) tj) ->
+  (2 <= cnt (elems d0 k ++ vals_of k (m_pushed st)) x)%nat.
+Proof. exact multi_each_element_once. Qed.
+Print Assumptions C09_two_blocked_poppers_each_element_once.
+
+(* While a key listed by a blocked popper holds elements, that popper's next tick finds some popper
+   served (with a poll result, not by a timer) -- whatever happens in between, in any order:
+   other poppers' polls at any phase, their timers, pushes, new blocked pops. *)
+Theorem C09_blocked_popper_served_any_order : forall wd st0 mid i p n k t',
+  ttl (m_d st0) = [] ->
+  nth_error (m_ps st0) i = Some (p, PBlocked n) -> In k (pp_keys p) -> elems (m_d st0) k <> [] ->
+  Forall (quiet i) mid ->
+  served_now (m_ps st0) (m_ps (mrun wd (mid ++ [EPoll i t']) st0)).
+Proof. exact multi_prompt. Qed.
+Print Assumptions C09_blocked_popper_served_any_order.
+
+(* ... and on the scheduler: the next tick n of a blocked popper is 100 ms after its previous poll
+   or its call ([C09_tick_period]); the scheduler lets only events not later than n happen before
+   that tick; so some popper is served within one polling period. *)
+Theorem C09_blocked_popper_served_promptly : forall wd fuel st cmds log st' log' i p n k,
+  msim wd fuel st cmds log = (st', log') ->
+  ttl (m_d st) = [] -> nth_error (m_ps st) i = Some (p, PBlocked n) -> n < pp_t0 p + pp_timer p ->
+  In k (pp_keys p) -> elems (m_d st) k <> [] -> Forall cmd_ok cmds ->
+  exists rest, log' = log ++ rest /\
+    ((exists mid post, rest = mid ++ EPoll i n :: post /\ Forall (fun e => ev_time e <= n) mid /\
+                       served_now (m_ps st) (m_ps (mrun wd (mid ++ [EPoll i n]) st))) \/
+     List.length rest = fuel).
+Proof. exact sim_prompt. Qed.
+Print Assumptions C09_blocked_popper_served_promptly.
+
+Theorem C09_tick_period : forall wd e st j p m,
+  nth_error (m_ps (mstep wd e st)) j = Some (p, PBlocked m) ->
+  nth_error (m_ps st) j = Some (p, PBlocked m) \/ m = ev_time e + 100.
+Proof. exact next_tick_100. Qed.
+Print Assumptions C09_tick_period.
+
+Theorem C09_scheduler_runs_its_log : forall wd fuel st cmds log st' log',
+  msim wd fuel st cmds log = (st', log') -> exists evs, log' = log ++ evs /\ st' = mrun wd evs st.
+Proof. exact msim_is_mrun. Qed.
+Print Assumptions C09_scheduler_runs_its_log.
+
 (* ---------------------------------------------------------------- the reference on the documentation's examples
    (sanity of the transcription; closed computations) *)
 Definition L (ss : list bytes) := ss.
@@ -227,3 +316,15 @@ Theorem C09_inv_all_commands : forall (prog : list (Z * Z * list bytes * reply))
   db_wf (ZSetsCompose.run_cmds prog d) /\ lists_ok (ZSetsCompose.run_cmds prog d).
 Proof. exact AllInv.lists_ok_all_commands. Qed.
 Print Assumptions C09_inv_all_commands.
+
+(* two poppers blocked on k with tickers 37 ms out of phase, a third connection pushes one element
+   at +262 ms and two more at +571 ms: the first element goes to connection 0 at +300 (its tick
+   comes first), connection 1 (BRPOP) takes the tail of the second push at +637; nothing twice *)
+Example demo_two_blocked_poppers :
+  db_exec_multi empty_db
+    [ mkBg 0 50000 [B "blpop"; B "k"; B "3"] RNil; mkBg 1 50037 [B "brpop"; B "k"; B "2"] RNil;
+      mkBg 9 50262 [B "rpush"; B "k"; B "x"] RNil; mkBg 9 50571 [B "rpush"; B "k"; B "y"; B "z"] RNil ] 20050
+  = ([ (RArr [RBulk (B "k"); RBulk (B "x")], 50300); (RArr [RBulk (B "k"); RBulk (B "z")], 50637);
+       (RInt 1, 50262); (RInt 2, 50571) ],
+     mkDb [(B "k", VList [B "y"])] []).
+Proof. vm_compute. reflexivity. Qed.
